@@ -829,7 +829,11 @@ class Gen:
                 choice = r.choice(opts)
             if values is not None and choice not in ("num",):
                 choice = "num"
-            if choice == "num":
+            if choice == "num" and values is not None and values[k] == "j":
+                it = ["j", None]
+                k += 1
+                self.hit("NL:J")
+            elif choice == "num":
                 v = values[k] if values is not None else self.real(vk)
                 it = ["num", v]
                 k += 1
@@ -1524,7 +1528,15 @@ CELL_KEYS = ["imp", "vol", "u", "lat", "fill", "trcl", "tmp", "pwt", "nonu", "co
              "unc", "wwn", "dxc", "pd"]
 
 
-def gen_problem(rng, wild=0.0, size=None):
+def hash_in_columns_1_5(sh):
+    """a '#' in the first five columns of a line that is not a comment line announces the vertical input format"""
+    for line in render(sh).split(NL):
+        if "#" in line[:5] and not (line[:5].strip().lower() == "c" or line.lstrip().lower().startswith("c ") and len(line) - len(line.lstrip()) < 5):
+            return True
+    return False
+
+
+def gen_problem(rng, wild=0.0, size=None, tame=False):
     """A well-formed problem of G_core: a list of sentences [{block, shape, mask, tags}], with the context
     conditions of section 5.2 (numbers unique per kind, references resolve, IMP covers MODE, each per-cell datum
     in one block only).  Returns (sentences, plan, coverage Counter)."""
@@ -1547,7 +1559,7 @@ def gen_problem(rng, wild=0.0, size=None):
     nmode = r.choice([1, 1, 2, 2, 3])
     mode = []
     while len(mode) < nmode:
-        s, p = g.particle("data") if r.random() < 0.12 else (False, r.choice("npe"))
+        s, p = g.particle("data") if (r.random() < 0.12 and not tame) else (False, r.choice("npe"))
         if p not in [q for _, q in mode]:
             mode.append((s, p))
     where = {k: r.choice(["cell", "cell", "data", "none"]) for k in ("vol", "u", "lat", "fill")}
@@ -1556,6 +1568,18 @@ def gen_problem(rng, wild=0.0, size=None):
         where["fill"] = where["lat"]
     plan = {"cells": cells, "surfs": surfs, "mats": mats, "trs": trs, "univs": univs, "mode": mode, "where": where}
     out = []
+
+    def tame_card(fn):
+        """in a tame problem no card carries a feature of an open known finding (so that whole files are read)"""
+        sh = fn()
+        for _ in range(40):
+            if hash_in_columns_1_5(sh):
+                sh = fn()        # that would be MCNP's vertical input format: not a sentence of G_core
+                continue
+            if not tame or not any(known_feature(t) for t in features(sh)):
+                break
+            sh = fn()
+        return sh
 
     def add(block, shape):
         mask = r.choice(["0", "0", "0", "1", "1"]) if r.random() < 0.7 else "".join(r.choice("01") for _ in range(r.randint(2, 7)))
@@ -1611,11 +1635,11 @@ def gen_problem(rng, wild=0.0, size=None):
         # build through the generator, one parameter at a time, keeping reading order
         ctx["params"] = [k_ for k_, _ in full]
         imps = [ps for k_, ps in full if k_ == "imp"]
-        shape = _cell_with_imps(g, ctx, imps, mode)
+        shape = tame_card(lambda: _cell_with_imps(g, ctx, imps, mode))
         add("cell", shape)
     for k, s in enumerate(surfs):
         ctx = {"num": s, "trs": trs, "periodic": surfs[:k]}
-        add("surface", g.surface(ctx))
+        add("surface", tame_card(lambda ctx=ctx: g.surface(ctx)))
     # ---- data block
     cards = []
     cards.append(lambda: g.mode(mode))
@@ -1648,7 +1672,7 @@ def gen_problem(rng, wild=0.0, size=None):
         cards.append(lambda vals=vals: g.data_numbers("lat", len(vals), values=vals))
         g.hit("LAT-card")
     if where["fill"] == "data" and where["u"] != "none":
-        vals = [g.simple(str(r.choice(univs)) if fill_of.get(c) else "0") for c in cells]
+        vals = [g.simple(str(r.choice(univs))) if fill_of.get(c) else "j" for c in cells]
         cards.append(lambda vals=vals: g.data_numbers("fill", len(vals), values=vals))
         g.hit("FILL-card")
     tnums = set()
@@ -1684,7 +1708,7 @@ def gen_problem(rng, wild=0.0, size=None):
     rest = cards[1:]
     r.shuffle(rest)
     for c in head + rest:
-        add("data", c())
+        add("data", tame_card(c))
     return out, plan, g.cov
 
 
@@ -1815,6 +1839,8 @@ def features(sh):
         for it, _ in sh[5][1]:
             if it[0] != "num":
                 out.add("percell-shortcut:%s:%s" % (sh[2][1], it[0]))
+    if sh[0] == "data" and sh[5][0] == "dopt" and sh[5][1] == "c":
+        out.add("particle-comment:option-c")
     if sh[0] == "mcard":
         for m in sh[5]:
             if m[0] == "mpl" and m[3].endswith("e"):
@@ -1836,11 +1862,29 @@ def features(sh):
                     out.add("chained-shortcuts")
                 if run >= 3:
                     out.add("chained-shortcuts-3")
+            for (a, _), (b2, _) in zip(n, n[1:]):
+                if a[0] == "mul" and b2[0] in ("rep", "int", "log"):
+                    out.add("mul-then-shortcut")
                 if it[0] in ("rep", "mul", "int", "log"):
                     out.add("shortcut:" + it[0])
                 if it[0] == "j":
                     out.add("shortcut:j")
     return out
+
+
+# feature prefixes that the open known findings of C12 are about -> can gen_core.without take the feature out?
+KNOWN_FEATURES = {
+    "cparam:nonu": True, "cparam:unc": True, "real:zaid-like": True, "real:fortran-after-dot": True,
+    "particle-keyword:": True, "particle-symbol:": True, "particle-comment:": True, "tally-mod:+": True,
+    "sdef-empty": False, "paren-lead-pad:": True, "mat-plain-after-lib": True, "mul-real": True,
+    "chained-shortcuts-3": True, "paren-then-complement": True, "percell-shortcut:imp:j": True,
+    "percell-shortcut:imp:mul": True, "percell-shortcut:vol:mul": True, "lib-suffix-e": True,
+    "mul-then-shortcut": True,
+}
+
+
+def known_feature(tag):
+    return any(tag.startswith(k) for k in KNOWN_FEATURES)
 
 
 def map_tree(node, f):
@@ -1852,6 +1896,8 @@ def map_tree(node, f):
 def without(sh, tag):
     """the same sentence with the tagged feature replaced by its ordinary alternative (None if not removable)"""
     kind = tag.split(":")[0]
+    if tag == "particle-comment:option-c":
+        return sh[:5] + [["dopt", "h"] + sh[5][2:]] + sh[6:]
     if kind == "cparam":
         key = tag.split(":")[1]
         if sh[0] != "cell":
@@ -1861,9 +1907,15 @@ def without(sh, tag):
     if kind == "paren-then-complement":
         return map_tree(sh, lambda n: ["tand", n[1], ["sp", 0], n[3]] if (is_node(n, {"tand"}) and n[2] is None and n[3][0] in ("ccell", "cpar")) else n)
     if kind in ("particle-keyword", "particle-symbol", "particle-comment"):
+        used = set()
+        for n in walk(sh):
+            if is_node(n, {"cp"}) and len(n) == 7:
+                used.update(n[4])
+        spare = [q for q in "nphdtsaeqvfl" if q not in used]
+
         def f(n):
             if is_node(n, {"cp"}) and len(n) == 7:
-                return n[:4] + [["n" if (p in "uxyzc" or p in SYMBOL_PARTICLES) else p for p in n[4]]] + n[5:]
+                return n[:4] + [[(spare.pop(0) if spare else "n") if (p in "uxyzc" or p in SYMBOL_PARTICLES) else p for p in n[4]]] + n[5:]
             if is_node(n, {"svp"}):
                 return ["svp", [False, "n", n[1][2]]]
             if is_node(n, {"dparts"}):
@@ -1888,7 +1940,7 @@ def without(sh, tag):
                 return [n[0], None] + n[2:]
             return n
         return map_tree(sh, f)
-    if kind in ("percell-shortcut", "chained-shortcuts-3"):
+    if kind in ("percell-shortcut", "chained-shortcuts-3", "mul-then-shortcut"):
         return map_tree(sh, lambda n: expand_plain(n) if is_nlist(n) else n)
     if kind == "lib-suffix-e":
         return sh[:5] + [[(m[:3] + [m[3][:-1] + "c"] + m[4:]) if (m[0] == "mpl" and m[3].endswith("e")) else m for m in sh[5]]]
